@@ -12,6 +12,8 @@ use proptest::prelude::*;
 use reqwest::StatusCode;
 use serde::{Deserialize, Serialize};
 use std::cell::RefCell;
+mod http429;
+
 use std::sync::Mutex;
 use std::time::Duration;
 use vh_engine::{Check, Known, Section, Verdict};
@@ -60,7 +62,7 @@ const MULTS: [&str; 8] = ["0", "0.5", "1", "2", "10", "1e30", "NaN", "-1"];
 /// the five ways an attempt can fail and be retried
 const NONTERMINAL: [Out; 5] = [Out::Retryable(0), Out::Hinted(0), Out::Hinted(1_000), Out::Hinted(3_600_000), Out::Limited];
 const N_RETRYABLE: u8 = 6;
-const N_FATAL: u8 = 7;
+const N_FATAL: u8 = 12;
 
 /// Build the concrete error for outcome `o` of call `i` (tagged with `i` where the variant has a payload).
 fn mk_err(o: Out, i: usize) -> ProtocolError {
@@ -83,7 +85,14 @@ fn mk_err(o: Out, i: usize) -> ProtocolError {
             3 => ProtocolError::InvalidKey,
             4 => ProtocolError::InvalidEndpoint(format!("call {i}")),
             5 => ProtocolError::AllHostsFailed,
-            _ => ProtocolError::RangeNotSupported,
+            6 => ProtocolError::RangeNotSupported,
+            // permanent server conditions: ProtocolError::should_retry's documentation names 429, 500,
+            // 502, 503 and 504 as the transient HttpStatus codes (table kept here, not asked of the code)
+            7 => ProtocolError::HttpStatus(StatusCode::NOT_IMPLEMENTED),
+            8 => ProtocolError::HttpStatus(StatusCode::HTTP_VERSION_NOT_SUPPORTED),
+            9 => ProtocolError::HttpStatus(StatusCode::INSUFFICIENT_STORAGE),
+            10 => ProtocolError::HttpStatus(StatusCode::NETWORK_AUTHENTICATION_REQUIRED),
+            _ => ProtocolError::HttpStatus(StatusCode::FORBIDDEN),
         },
     }
 }
@@ -485,7 +494,7 @@ fn main() {
     ck.assume("jitter comes from the library's own thread RNG: jittered delays are checked against bounds only, never against exact values");
     ck.assume(
         "CdnClient::download_with_retry runs RetryPolicy::default() (a grid point) through the same execute loop; its HTTP status mapping \
-         (5xx -> ServerError, 429 -> RateLimited{Retry-After}, other -> HttpStatus) is represented by the scripted error variants, no HTTP traffic is generated",
+         (5xx -> ServerError, 429 -> RateLimited{Retry-After}, other -> HttpStatus) is represented by the scripted error variants; HTTP traffic is generated only by section cdn-429-retry-after (real clock, lower bounds only)",
     );
     ck.assume("retryable / non-retryable variants are the ones listed in ProtocolError::should_retry (reqwest::Error values cannot be constructed offline)");
     ck.assume(
@@ -533,6 +542,17 @@ fn main() {
         Section::pbt("grid-sampled", tier.pick(60_000, 4_000_000), sampled_strategy, move |c: &Case| run_case(c, &known, false))
             .shards(16)
             .panic_prefix_("execute"),
+    );
+
+    // 2b. the HTTP end of the hint: what CdnClient makes of a 429's Retry-After header
+    ck.run(
+        Section::enumerate(
+            "cdn-429-retry-after",
+            "a loopback HTTP server answers CdnClient::download with 1..=3 responses `429` carrying Retry-After absent / `0` / `1` / `1.5` / `-1` / `soon` / an HTTP-date / empty, then `200`; the arrival times of the requests are logged: an integer header is the hint (waited at least that long), every other form is documented as ignored, i.e. the default policy's 100 ms, 200 ms, 400 ms (never less)",
+            || Box::new(http429::all_cases().into_iter()),
+            http429::check,
+        )
+        .shards(16),
     );
 
     // 3. the same values as environment text through RetryPolicy::from_env (process-global: one thread)
